@@ -1021,7 +1021,7 @@ def norm_cfg(case):
         "skip": [int(x) for x in case.get("skip") or []],  # cyclesSkipTightCouplingInteraction
         "maxIters": case.get("maxIters"),  # tightCouplingMaxNumIters (None: default)
         "coupler": bool(case.get("coupler")),  # recB carries a real TightCoupler that never converges
-        "sync": bool(case.get("sync")),  # syncDbAfterWrite
+        "sync": True if case.get("sync") is None else bool(case["sync"]),  # syncDbAfterWrite (default on)
     }
 
 
@@ -1033,8 +1033,8 @@ def cfg_text(c):
         t += " tightCouplingMaxNumIters=%d" % c["maxIters"]
     if c["coupler"]:
         t += " (one interface with a never-converging coupler)"
-    if c["sync"]:
-        t += " syncDbAfterWrite=True"
+    if not c["sync"]:
+        t += " syncDbAfterWrite=False"
     return t
 
 
@@ -1085,8 +1085,7 @@ def cfg_settings(cfg):
         over["cyclesSkipTightCouplingInteraction"] = list(cfg["skip"])
     if cfg["maxIters"] is not None:
         over["tightCouplingMaxNumIters"] = int(cfg["maxIters"])
-    if cfg["sync"]:
-        over["syncDbAfterWrite"] = True
+    over["syncDbAfterWrite"] = bool(cfg["sync"])
     return over
 
 
@@ -1236,8 +1235,9 @@ def run_fault(case):
                                 dd = observe.diff(final, pr)
                                 if dd:
                                     vl.append(("error-snapshot-state", "%s: the error snapshot differs from the state at the failure: %s" % (what, dd[:4])))
-                                if observe.diff(final, t.projs[arm]):
-                                    raise RuntimeError("state after the aborted run differs from the state at the fault")
+                                dd = observe.diff(t.projs[arm], final)
+                                if dd:
+                                    vl.append(("state-changed-by-error-handling", "%s: the reactor after the aborted run differs from its state at the fault: %s" % (what, dd[:4])))
                 except (OSError, KeyError) as e:
                     vl.append(("file-unreadable:" + type(e).__name__, "%s: the file left behind cannot be read: %r" % (what, e)))
         seen = set()
@@ -1283,16 +1283,28 @@ def run_restart(case):
     try:
         o, r, cs = _mk_operator(nC, bs, tight, int(case.get("seed", 0)), **cfg_settings(cfg))
         _standard_stack(o, r, cs, cfg)
-        with o:
-            o.operate()
-        projs = list(_Trace.projs)
         pts, writes = ref_schedule(cfg)
-        os.rename(cs.caseTitle + ".h5", "prev.h5")
-        with h5py.File("prev.h5", "r") as f:
-            src = {n: gdigest(f[n]) for n in f if n[0] == "c" and n[1:3].isdigit()}
         allkeys = sorted(w[1] for w in writes)
-        if sorted(src) != [gname(k) for k in allkeys]:
-            raise RuntimeError("fault-free run left %s" % sorted(src))
+        problem = None
+        try:
+            with o:
+                o.operate()
+        except Exception as e:
+            problem = "the source run raised %r" % (e,)
+        projs = list(_Trace.projs)
+        src = {}
+        if problem is None and not os.path.exists(cs.caseTitle + ".h5"):
+            problem = "the source run left no %s.h5 in the working directory" % cs.caseTitle
+        if problem is None:
+            os.rename(cs.caseTitle + ".h5", "prev.h5")
+            with h5py.File("prev.h5", "r") as f:
+                src = {n: gdigest(f[n]) for n in raw_names(f) if n != "inputs"}
+                if sorted(src) != sorted(gname(k) for k in allkeys) or not bool(f.attrs["successfulCompletion"]):
+                    problem = "the completed source run left the steps %s (successfulCompletion=%s), expected %s" % (sorted(src), bool(f.attrs["successfulCompletion"]), sorted(gname(k) for k in allkeys))
+        if problem is not None:
+            # whatever a fault-free run leaves behind is the property's subject, never a harness matter
+            res["viols"].append(core.viol("c06/restart/source-run-incomplete", "%s: %s" % (cfg_text(cfg), problem), dict(case, part="R")))
+            return res
         starts = [(c, n) for c in range(nC) for n in range(bs + 1) if (c, n) != (0, 0)]
         for sc, sn in starts:
             if only is not None and [sc, sn] != list(only):
@@ -1344,7 +1356,7 @@ def run_restart(case):
         shutil.rmtree(d, ignore_errors=True)
 
 
-def _cfg(nC, bs, tight, skip=(), maxIters=None, coupler=False, sync=False):
+def _cfg(nC, bs, tight, skip=(), maxIters=None, coupler=False, sync=True):
     return {"part": "B", "nCycles": nC, "burnSteps": bs, "tight": tight, "skip": list(skip), "maxIters": maxIters, "coupler": coupler, "sync": sync}
 
 
@@ -1356,7 +1368,7 @@ def fault_families(b):
     changes WHICH code path writes a node or finalises the file: tightCoupling (database hook vs
     operator after the coupled iterations) x cyclesSkipTightCouplingInteraction in {[], [0], [1], all}
     x number of coupled iterations {cap 0, converged at once, cap reached} x syncDbAfterWrite
-    (close/copy/reopen after every write), over nCycles 1-3 and burnSteps from 0."""
+    (default on: close/copy/reopen after every write; off as a deviation), over nCycles 1-3 and burnSteps from 0."""
     free, seen = [], set()
 
     def add(lst, c):
@@ -1366,7 +1378,7 @@ def fault_families(b):
             lst.append(c)
 
     def members(nC, bs):
-        out = [_cfg(nC, bs, False), _cfg(nC, bs, False, sync=True)]
+        out = [_cfg(nC, bs, False), _cfg(nC, bs, False, sync=False)]
         eff = set()
         for skip in ([], [0], [1], list(range(nC))):
             e = tuple(sorted(set(skip) & set(range(nC))))
@@ -1375,14 +1387,14 @@ def fault_families(b):
             eff.add(e)
             for cap, coup in b["iter_modes"]:
                 out.append(_cfg(nC, bs, True, skip, cap, coup))
-        out.append(_cfg(nC, bs, True, sync=True))
+        out.append(_cfg(nC, bs, True, sync=False))
         return out
 
     for nC, bs in b["shapes_free"]:
         for c in members(nC, bs):
             add(free, c)
     for nC, bs in b["shapes_free_base"]:
-        for c in (_cfg(nC, bs, False), _cfg(nC, bs, True), _cfg(nC, bs, False, sync=True), _cfg(nC, bs, True, sync=True)):
+        for c in (_cfg(nC, bs, False), _cfg(nC, bs, True), _cfg(nC, bs, False, sync=False), _cfg(nC, bs, True, sync=False)):
             add(free, c)
     enum, seen = [], set()
     for nC, bs in b["shapes_enum"]:
@@ -1393,7 +1405,7 @@ def fault_families(b):
             add(enum, c)
     if b["shapes_enum"]:
         nC, bs = b["enum_deviations_on"]
-        for c in (_cfg(nC, bs, True, [nC - 1]), _cfg(nC, bs, True, list(range(nC))), _cfg(nC, bs, True, [], 2, True), _cfg(nC, bs, False, sync=True), _cfg(nC, bs, True, sync=True)):
+        for c in (_cfg(nC, bs, True, [nC - 1]), _cfg(nC, bs, True, list(range(nC))), _cfg(nC, bs, True, [], 2, True), _cfg(nC, bs, False, sync=False), _cfg(nC, bs, True, sync=False)):
             add(enum, c)
     return free, enum
 
